@@ -71,8 +71,8 @@ class C19Runner:
         mod = load_gen_jobs()
         sams = sam_ranges(drv)
         rng = random.Random(repr((seed, pid)))
-        grid = [(1, 1), (1, 16), (4, 64), (16, 1024)] if tier == "quick" else \
-               [(a, b) for a in (1, 2, 16, 256) for b in (1, 2, 3, 16, 100, 512, 1024)]
+        grid = [(1, 1), (1, 16), (4, 64), (16, 1024), (1, 1040), (8193, 16)] if tier == "quick" else \
+               [(a, b) for a in (1, 2, 16, 256, 9000) for b in (1, 2, 3, 16, 100, 512, 1024, 1025, 4096)]
         stats = collections.Counter()
         samples = []
         evaluations = 0
@@ -84,7 +84,13 @@ class C19Runner:
                 for (nbl, wbl) in grid:
                     nnb, nwb = rng.choice([(1, 1), (2, 3), (10, 100) if tier == "thorough" else (2, 2)])
                     mod.random.seed(seed * 1000 + evaluations)
-                    jobs = real_jobs(mod, traffic, rw, nbl, wbl, nnb, nwb)
+                    try:
+                        jobs = real_jobs(mod, traffic, rw, nbl, wbl, nnb, nwb)
+                    except (AssertionError, ValueError):
+                        # burst settings the generator refuses (length above the memory size): nothing is written
+                        stats["refused-settings"] += 1
+                        evaluations += 1
+                        continue
                     evaluations += 1
                     distinct.add((traffic, rw, nbl, wbl, nnb, nwb))
                     # decide the property on what the real script wrote, against the real address maps
@@ -106,7 +112,7 @@ class C19Runner:
                                                     "narrow_burst_length": nbl, "wide_burst_length": wbl,
                                                     "num_narrow_bursts": nnb, "num_wide_bursts": nwb, "example": ex})
                     # correspondence with the Lean model (deterministic patterns; uniform: membership)
-                    if traffic != "uniform":
+                    if traffic != "uniform" and wbl * 64 <= 65536 and nbl * 8 <= 65536:
                         for kind, off, bursts in (("wide", 0, nwb), ("narrow", 100, nnb)):
                             m = drv.call({"cmd": "jobs", "traffic": traffic, "wl": wbl * 64, "bursts": bursts,
                                           "read": rw == "read"})
